@@ -580,6 +580,34 @@ pub fn gen_queries(seed: u64, tier: &str) -> Vec<String> {
         out.lines.push(format!("tao e0 {}", e + 1));
         out.lines.push(format!("cover e0 0 {}", e + 1));
     }
+    // wide nodes: a look-up may treat nodes with many children differently (binary search, early exits): every offset and
+    // every range of nodes with 17 … 70 children -- tokens of 0-2 bytes, empty nodes, small nodes -- as root and as an inner node
+    let widths: &[usize] = if tier == "thorough" { &[16, 17, 18, 20, 33, 64, 70] } else { &[17, 20, 33] };
+    for (wi, w) in widths.iter().enumerate() {
+        let mut kids = vec![];
+        for j in 0..*w {
+            kids.push(match (j + wi) % 7 {
+                0 | 3 => RefTree::Tok(10, "a".into()),
+                1 => RefTree::Tok(11, "éb".into()),
+                2 => RefTree::Tok(10, "".into()),
+                4 => RefTree::Node(1, vec![]),
+                5 => RefTree::Node(1, vec![RefTree::Tok(10, "a".into()), RefTree::Tok(10, "b".into())]),
+                _ => RefTree::Tok(10, "cd".into()),
+            });
+        }
+        let wide = RefTree::Node(2, kids);
+        let t = if wi % 2 == 0 { RefTree::Node(0, vec![wide]) } else { RefTree::Node(0, vec![RefTree::Tok(10, "x".into()), wide, RefTree::Tok(10, "y".into())]) };
+        start_case(&mut out, &mut case, &t, &mut rng, "user");
+        out.lines.push(format!("api {}", api_name(wi)));
+        let mut sim = Sim::new(&t, "g0", &mut out);
+        route(&mut sim, 0, "queries", &mut out);
+        sim.nav(0, &["children"], &mut out);
+        for x in sim.known() {
+            if x != 0 && !sim.arena.is_tok(x) {
+                route(&mut sim, x, "queries", &mut out);
+            }
+        }
+    }
     let n = if tier == "thorough" { 2000 } else { 200 };
     for i in 0..n {
         let t = random_red_tree(&mut rng, i % 5 == 0);
@@ -736,6 +764,41 @@ pub fn gen_replace(seed: u64, tier: &str) -> Vec<String> {
         out.lines.push("dump g0".into());
         sim.nav(0, &["descendants_with_tokens"], &mut out);
     }
+    // volume: a node with more children than a 16-bit index can address (assembled directly from shared children), elements
+    // replaced near its end, in its middle and inside its last child
+    for w in if tier == "thorough" { vec![65535usize, 65536, 65537, 70001] } else { vec![65538usize] } {
+        out.lines.push(format!("case {}", case));
+        case += 1;
+        out.lines.push("cache user".into());
+        out.lines.push("builder c0".into());
+        emit_tree(&RefTree::Node(3, vec![RefTree::Tok(10, "a".into()), RefTree::Tok(10, "bc".into()), RefTree::Node(1, vec![RefTree::Tok(10, "d".into())]),
+                                          RefTree::Tok(10, "xyz".into()), RefTree::Node(1, vec![RefTree::Tok(10, "longer".into())])]), &mut out.lines, &mut rng);
+        out.lines.push("finish".into()); // g0: the parts
+        let mut refs: Vec<&str> = Vec::with_capacity(w);
+        for i in 0..w - 1 {
+            refs.push(if i % 2 == 0 { "g0.0" } else { "g0.1" });
+        }
+        refs.push("g0.2");
+        out.lines.push(format!("gnew 0 {}", refs.join(" "))); // g1
+        out.lines.push("red g1".into()); // e0
+        out.lines.push("nav e0 last_child_or_token".into()); // e1: the node at index w-1
+        out.lines.push("nav e1 prev_sibling_or_token".into()); // e2: token at index w-2
+        out.lines.push("nav e2 prev_sibling_or_token".into()); // e3: token at index w-3
+        out.lines.push("nav e1 first_child_or_token".into()); // e4: token inside the last child
+        out.lines.push("replace e2 g0.3".into()); // g2
+        out.lines.push("heads g2".into());
+        out.lines.push("text g2".into());
+        out.lines.push("replace e3 g0.3".into()); // g3
+        out.lines.push("heads g3".into());
+        out.lines.push("text g3".into());
+        out.lines.push("replace e1 g0.4".into()); // g4
+        out.lines.push("heads g4".into());
+        out.lines.push("text g4".into());
+        out.lines.push("replace e4 g0.3".into()); // g5
+        out.lines.push("heads g5".into());
+        out.lines.push("text g5".into());
+        out.lines.push("heads g1".into());
+    }
     out.lines
 }
 
@@ -768,6 +831,12 @@ pub fn gen_fmt(seed: u64, tier: &str) -> Vec<String> {
     header(&mut out.lines);
     let mut case = 0usize;
     let bes: Vec<&str> = backends().into_iter().filter(|b| !b.ends_with("ref")).collect();
+    // deep chains, formatted on a thread with an ordinary (2 MiB) stack: the walks behind display / debug are loops, so no depth is special
+    out.lines.push(format!("case {}", case));
+    case += 1;
+    for d in if tier == "thorough" { vec![1usize, 2, 1000, 6000, 16000, 24000] } else { vec![3usize, 6000, 16000] } {
+        out.lines.push(format!("deepfmt {}", d));
+    }
     // every length 0..40 (thorough 0..60) x alignment patterns, plus characters that need escaping
     let maxlen = if tier == "thorough" { 60 } else { 40 };
     let patterns = if tier == "thorough" { 12 } else { 8 };
@@ -1386,6 +1455,21 @@ pub fn gen_serde(seed: u64, tier: &str) -> Vec<String> {
                 }
             }
             out.push(format!("ser {} g0 {}", mode, assigns.join(" ")).trim_end().to_string());
+        }
+    }
+    // deep trees: the event stream is flat whatever the nesting, so no depth is special (a deserialiser with a depth limit of its
+    // own -- 128 is the customary one -- would reject valid trees)
+    let depths: &[usize] = if tier == "thorough" { &[64, 127, 128, 129, 130, 255, 256, 257, 600] } else { &[128, 129, 300] };
+    for d in depths {
+        let t = crate::gen::deep_tree(&mut rng, *d);
+        out.push(format!("case {}", case));
+        case += 1;
+        out.push("cache user".into());
+        out.push("builder c0".into());
+        emit_tree(&t, &mut out, &mut rng);
+        out.push("finish".into());
+        for mode in ["plain", "resolver", "data", "data_resolver"] {
+            out.push(format!("ser {} g0 0=1 {}={} {}={}", mode, d / 2, d, d, d + 1));
         }
     }
     // rejection: every event stream up to a length bound, with every data-list length
